@@ -2,6 +2,7 @@
 middlewares) and the per-configuration drivers that run the *real*
 ``process_graphql_query`` on the simulated substrates.
 """
+import zlib
 import asyncio
 import collections
 import inspect
@@ -10,6 +11,7 @@ import types
 
 import py_gql
 from py_gql import build_schema, process_graphql_query
+from py_gql import exc as _exc
 from py_gql.exc import ResolverError
 from py_gql.execution import (
     BlockingExecutor,
@@ -89,10 +91,28 @@ class BoomLookup(Boom, LookupError):
     pass
 
 
+class BoomLocated(Boom, _exc.GraphQLLocatedError):
+    """The library's own located errors are NOT resolver errors: only
+    ResolverError is documented as "reported instead of crashing"."""
+
+
+class BoomEnumValue(Boom, _exc.UnknownEnumValue):
+    pass
+
+
+class BoomCoercion(Boom, _exc.CoercionError):
+    pass
+
+
+class BoomValidation(Boom, _exc.ValidationError):
+    pass
+
+
 # unexpected exceptions come in the classes that library code tends to catch
 # for its own control flow
 BOOM_CLASSES = (Boom, BoomIndex, BoomKey, BoomValue, BoomType, BoomAttribute,
-                BoomLookup)
+                BoomLookup, BoomLocated, BoomEnumValue, BoomCoercion,
+                BoomValidation)
 
 
 class DeniedError(ResolverError):
@@ -120,7 +140,7 @@ class ReqCtx:
     """Per-request context handed to resolvers through ``context=``."""
 
     __slots__ = ("world", "faults", "kernel", "mode", "loop", "mutseq",
-                 "req_id", "stats", "pausable", "shared_error")
+                 "req_id", "stats", "pausable", "shared_error", "serial")
 
     def __init__(self, world, kernel, mode, loop=None, req_id=0):
         self.world = world
@@ -133,6 +153,7 @@ class ReqCtx:
         self.stats = {}
         self.pausable = bool(loop is not None and loop.threaded_jobs)
         self.shared_error = None
+        self.serial = False
 
     def log(self, kind, path=None, payload=None):
         self.kernel.log.add(kind, path, payload)
@@ -151,7 +172,9 @@ def _start(tname, fname, root, ctx, info):
         ctx.select_event(root)
     ctx.log("rs", path, ctx.req_id)
     seq = None
-    if tname == "Mutation":
+    if ctx.serial and len(path) == 1:
+        # a root field of a mutation operation (whatever the root type is
+        # called -- one object type may serve as query AND mutation root)
         ctx.mutseq += 1
         seq = ctx.mutseq
     return path, seq
@@ -245,9 +268,24 @@ def make_default_attr(tname, fname, oid):
     default_resolver (``field_value(context, info, **args)``).  The parent is
     not passed by default_resolver, so the closure carries its id."""
     parent = {"__id__": oid}
+    # one method in three hands back a deferred value (a coroutine-backed
+    # awaitable under asyncio, a submitted task on the pool): values supplied
+    # through the default resolver go through the runtime like any other
+    deferred = zlib.crc32(("%s.%s" % (tname, fname)).encode()) % 3 == 0
 
     def attr(ctx, info, **kwargs):
         tok = _start(tname, fname, parent, ctx, info)
+        if deferred and ctx.mode == "asyncio":
+            async def inner():
+                await ctx.loop.sleep(ctx.kernel.draw_latency("dd-lat"))
+                return _finish(tname, fname, parent, ctx, kwargs, tok)
+
+            ctx.count("deferred_from_default_resolver")
+            return _as_awaitable(ctx, inner())
+        if deferred and ctx.mode == "pool":
+            ctx.count("deferred_from_default_resolver")
+            return info.runtime.submit(
+                lambda: _finish(tname, fname, parent, ctx, kwargs, tok))
         return _finish(tname, fname, parent, ctx, kwargs, tok)
 
     return attr
@@ -598,6 +636,7 @@ def run_config(config, bundle, request, world, stream, policy=None,
             # pausable threads so that their bodies overlap
             loop.threaded_jobs = stream.below(3, "threaded-jobs") == 2
     ctx = ReqCtx(world, kernel, mode, loop=loop)
+    ctx.serial = request.get("kind") == "mutation"
     out.ctx = ctx
     kw["context"] = ctx
     if middlewares_factory is not None:
@@ -768,6 +807,7 @@ def run_overlapped(config, bundle, requests, worlds, stream, policy=None,
         out = Outcome(config)
         out.kernel = kernel
         ctx = ReqCtx(world, kernel, mode, loop=loop, req_id=rid)
+        ctx.serial = request.get("kind") == "mutation"
         out.ctx = ctx
         outs.append(out)
         kws.append(dict(
